@@ -62,10 +62,11 @@ class T(ast.NodeTransformer):
 
     def visit_FunctionDef(self, node):
         self.generic_visit(node)
-        for d in node.decorator_list:
+        for i, d in enumerate(node.decorator_list):
             src = ast.unparse(d)
             if 'njit' in src or 'jit(' in src:
-                node.decorator_list.insert(0, ast.Name('__sym_njit__', ast.Load()))
+                # directly around the jit decorator (staticmethod/abstractmethod stay outermost)
+                node.decorator_list.insert(i, ast.Name('__sym_njit__', ast.Load()))
                 break
         return node
 
